@@ -28,6 +28,7 @@ type labelSpec struct {
 	labels []string // as returned (order matters only to the implementation)
 	nilLbl bool     // return nil instead of an empty slice
 	dup    bool     // the list repeats a label
+	zero   bool     // the recipient returns no stanza at all (and no error): a policy-only recipient
 }
 
 var alphabet = []labelSpec{
@@ -50,6 +51,10 @@ var alphabet = []labelSpec{
 	{name: "[c,b,a]", labels: []string{"c", "b", "a"}},
 	{name: "[a,c,b]", labels: []string{"a", "c", "b"}},
 	{name: "[d,c,b]", labels: []string{"d", "c", "b"}},
+	// recipients that contribute labels but no stanza
+	{name: "{a}/0-stanzas", labels: []string{"a"}, zero: true},
+	{name: "{b}/0-stanzas", labels: []string{"b"}, zero: true},
+	{name: "empty/0-stanzas", labels: []string{}, zero: true},
 }
 
 // set is the canonical form of the SET of labels (duplicates removed).
@@ -96,6 +101,9 @@ func (l *labelRcpt) WrapWithLabels(fileKey []byte) ([]*age.Stanza, []string, err
 	s, err := l.plainRcpt.Wrap(fileKey)
 	if err != nil {
 		return nil, nil, err
+	}
+	if l.spec.zero {
+		s = nil
 	}
 	if l.spec.nilLbl {
 		return s, nil, nil
@@ -234,7 +242,13 @@ func runList(r *mon.Run, l []int, failPos int) {
 		return
 	}
 	hdr, _, perr := refage.ParseHeader(dst.Buf)
-	if perr != nil || len(hdr.Stanzas) != len(l) {
+	wantStanzas := 0
+	for _, a := range l {
+		if !alphabet[a].zero {
+			wantStanzas++
+		}
+	}
+	if perr != nil || len(hdr.Stanzas) != wantStanzas {
 		r.Violate("accepted-bad-header:"+desc, fmt.Sprintf("accepted list produced an unparseable or incomplete header (%v)", perr), replay)
 	}
 	r.Count("acceptances_checked", 1)
